@@ -6,4 +6,4 @@ CONSTANT CheckIndex = TRUE
 CONSTANT BindTotal = TRUE
 INIT Init
 NEXT Next
-INVARIANTS TypeOK Complete Sound AlteredRejected VerdictsConsistent
+INVARIANTS TypeOK Complete Sound AlteredRejected VerdictsConsistent AcceptIffSamePath TotalAndIndexBound HonestDepth
